@@ -34,6 +34,7 @@ type Slice = (bool, Vec<Vec<(usize, usize)>>);
 fn slice_of(rules: &yara_x::Rules, globals: &[GV], data: &[u8], target: &str, fast_scan: bool) -> Result<Slice, String> {
     catch(AssertUnwindSafe(|| {
         let mut s = yara_x::Scanner::new(rules);
+        s.set_timeout(std::time::Duration::from_secs(20));
         s.fast_scan(fast_scan);
         set_globals(&mut s, globals);
         let res = s.scan(data).map_err(|e| e.to_string())?;
